@@ -5,6 +5,10 @@ try:
     conf.registerPlugin('VtGate')
     conf.registerGlobalValue(conf.supybot.plugins.VtGate, 'mark',
                              registry.String('', """written by every VtGate command body"""))
+    conf.registerChannelValue(conf.supybot.plugins.VtGate, 'open',
+                              registry.String('', """a channel value channel ops may set"""))
+    conf.registerChannelValue(conf.supybot.plugins.VtGate, 'locked',
+                              registry.String('', """a channel value only the owner may set"""), opSettable=False)
 except Exception:
     pass
 
